@@ -805,6 +805,10 @@ def apply_contract(I: Interp, con: Contract, finfo: FuncInfo, selfv, args, kwarg
         finally:
             st.old_stack.pop()
     if not st.guards and not st.consistent():
+        if con.raises:
+            # the callee cannot return normally from this state (its postconditions exclude it): only its raising
+            # branches, explored separately, continue from here
+            raise PathEnd()
         raise Refuse(f"contract of {finfo.key} is inconsistent with the state at its call site (line {line}): vacuous proof refused")
     st.log.append(f"contract {finfo.key}")
     st.call_records.append({"callee": finfo.key, "line": line, "result": result, "heap_after": dict(st.heap)})
